@@ -140,6 +140,10 @@ func (c10) Gen(rs uint64, tier string, race bool) interface{} {
 	l := 4 * (1 + r.Intn(6))
 	if c.Op == "bootstrap" && r.Chance(0.25) {
 		l = r.Range(1, 3) // floor(frac*L) reaches 0 (dyadic fractions: still exact)
+	} else if c.Op == "bootstrap" && !cli && r.Chance(0.3) {
+		// eighths of a length that is a multiple of 8: fractions that are no whole number of percent, still exact
+		l = 8 * r.Range(1, 4)
+		c.A = r.PickS0(0.125, 0.375, 0.625, 0.875)
 	}
 	for i := 0; i < n; i++ {
 		a.Names = append(a.Names, fmt.Sprintf("s%d", i))
